@@ -422,8 +422,10 @@ def device_info_payloads(spec, part):
         fam = ("ET", "DT", "ES")[i % 3]
         port = 8899 if fam == "ES" or rnd.random() < 0.6 else 502
         sim = models.family_sim(fam)
-        style = rnd.choice(("random", "random", "ff", "zero", "ctrl", "wide"))
+        style = rnd.choice(("random", "random", "ff", "zero", "ctrl", "wide", "padded"))
         n = 66 if fam == "ET" else 80 if fam == "DT" else 64
+        if fam == "ES" and rnd.random() < 0.3:
+            n = rnd.choice((0, 1, 2, 3, 4, 5, 6, 15, 31, 47, 51, 63, 80, 255))      # AA55: the length byte says how long the identification payload is
 
         def content(k):
             if style == "random":
@@ -432,6 +434,11 @@ def device_info_payloads(spec, part):
                 return b"\xff" * k
             if style == "zero":
                 return bytes(k)
+            if style == "padded":   # short texts padded with blanks (version strings of 1..4 characters, blank fields)
+                out_ = b""
+                while len(out_) < k:
+                    out_ += bytes(rnd.choice(b"0123456789ABEF") for _ in range(rnd.randrange(0, 5))) + b" " * rnd.randrange(1, 6)
+                return out_[:k]
             if style == "ctrl":     # text with control characters sprinkled in
                 return bytes(rnd.choice((rnd.randrange(32), rnd.randrange(48, 91), rnd.randrange(48, 91), 0x20, 0x7f)) for _ in range(k))
             # 'wide': 16-bit code units, some of them surrogate halves (D800..DFFF) in any order, some zero high bytes
@@ -447,10 +454,13 @@ def device_info_payloads(spec, part):
                 first = 35000 if fam == "ET" else 30001
                 for k in range(n // 2):
                     base[2 * k:2 * k + 2] = (sim.regs.get(first + k, 0) & 0xFFFF).to_bytes(2, "big")
-            lo = rnd.randrange(0, n - 2)
+            lo = rnd.randrange(0, max(1, n - 2)) if fam != "ES" or rnd.random() < 0.4 else min(rnd.choice((0, 0, 5, 31, 51)), max(0, n - 1))     # (ES field starts)
             hi = min(n, lo + rnd.choice((2, 10, 12, 16)))
             base[lo:hi] = blk[lo:hi]
             blk = base
+        if fam == "ES" and style == "padded":
+            # the firmware field (5 characters: DSP1, DSP2, ARM) shorter than usual, blank-padded or cut off by the end of the payload
+            blk[0:min(5, n)] = rnd.choice((b"0410 ", b"2225 ", b"04   ", b"0    ", b"     ", b"041  ", b"22 5F", b"0410"))[:min(5, n)]
         if fam == "ES":
             sim.info = bytes(blk)
         else:
